@@ -282,16 +282,16 @@ mod validity {
         }
 
         if !right_type.is_orderable() {
-            // The right argument must be a tag at this point. If it is not a tag
-            // and the second .unwrap() below panics, then our type inference
-            // has inferred an incorrect type for the variable in the argument.
-            let tag = right.unwrap().as_tag().unwrap();
-
-            errors.push(FilterTypeError::non_orderable_tag_argument_to_ordering_filter(
-                operation.operation_name(),
-                tag_name.unwrap(),
-                tag.field_type(),
-            ));
+            // A variable's type is inferred from the left-hand operand, so a non-orderable
+            // variable means a non-orderable left-hand operand, which was reported above.
+            // Only a tag can be non-orderable on its own.
+            if let Some(tag) = right.and_then(|r| r.as_tag()) {
+                errors.push(FilterTypeError::non_orderable_tag_argument_to_ordering_filter(
+                    operation.operation_name(),
+                    tag_name.unwrap(),
+                    tag.field_type(),
+                ));
+            }
         }
 
         // For the operands relative to each other, nullability doesn't matter,
